@@ -32,6 +32,8 @@ struct SyncVecWr {
     data: ManuallyDrop<Vec<u8>>,
     total_size: usize,
     decoded: Arc<(Mutex<usize>, Condvar)>,
+    // Set (once) by the decoding thread if it cannot decode up to `total_size`.
+    error: Arc<OnceLock<String>>,
 }
 
 unsafe impl Send for SyncVecWr {}
@@ -41,6 +43,7 @@ struct SyncVecRd {
     buffer: *const u8,
     total_size: usize,
     decoded: Arc<(Mutex<usize>, Condvar)>,
+    error: Arc<OnceLock<String>>,
 }
 
 unsafe impl Send for SyncVecRd {}
@@ -88,6 +91,7 @@ impl SyncVecRd {
 fn create_sync_vec(size: usize) -> (SyncVecWr, SyncVecRd) {
     let buffer = Arc::new(Vec::with_capacity(size));
     let decoded = Arc::new((Mutex::new(0), Condvar::new()));
+    let error = Arc::new(OnceLock::new());
     let buffer_ptr = buffer.as_ptr();
     #[cfg(jubako_verif)]
     crate::verif::point(crate::verif::Event::BufCreated {
@@ -99,12 +103,14 @@ fn create_sync_vec(size: usize) -> (SyncVecWr, SyncVecRd) {
         buffer: buffer_ptr,
         total_size: size,
         decoded: Arc::clone(&decoded),
+        error: Arc::clone(&error),
     };
     let rw = SyncVecWr {
         _arc: buffer,
         data: ManuallyDrop::new(unsafe { Vec::from_raw_parts(buffer_ptr as *mut u8, 0, size) }),
         total_size: size,
         decoded,
+        error,
     };
     (rw, rd)
 }
@@ -135,10 +141,17 @@ fn decode_to_end<T: Read + Send>(
         #[cfg(jubako_verif)]
         let verif_from = uncompressed;
 
-        uncompressed += decoder
+        let read = decoder
             .by_ref()
             .take(size as u64)
             .read_to_end(&mut buffer.data)?;
+        if read == 0 {
+            return Err(std::io::Error::new(
+                std::io::ErrorKind::UnexpectedEof,
+                format!("Decompressed data ends at {uncompressed}, {total_size} expected"),
+            ));
+        }
+        uncompressed += read;
         #[cfg(jubako_verif)]
         crate::verif::point(crate::verif::Event::ChunkWritten {
             buf: verif_done.buf,
@@ -179,26 +192,47 @@ impl SeekableDecoder {
                     .unwrap()
             })
             .spawn(move || {
-                decode_to_end(decoder, write_hand, 4 * 1024).unwrap();
+                let decoded = Arc::clone(&write_hand.decoded);
+                let error = Arc::clone(&write_hand.error);
+                if let Err(e) = decode_to_end(decoder, write_hand, 4 * 1024) {
+                    // Readers may be waiting for data which will never come. Wake them up.
+                    let _ = error.set(e.to_string());
+                    let (lock, cvar) = &*decoded;
+                    let _decoded = lock.lock().unwrap();
+                    cvar.notify_all();
+                }
             });
         Self { buffer: read_hand }
     }
 
     #[inline]
-    pub fn decode_to(&self, end: usize) {
+    pub fn decode_to(&self, end: usize) -> std::io::Result<()> {
         #[cfg(jubako_verif)]
         crate::verif::point(crate::verif::Event::WaitBegin {
             buf: self.buffer.buffer as usize,
             end,
             seen: self.buffer.current_size(),
         });
-        self.buffer.wait_while(|d: &mut usize| *d < end);
+        let decoded = self
+            .buffer
+            .wait_while(|d: &mut usize| *d < end && self.buffer.error.get().is_none());
         #[cfg(jubako_verif)]
         crate::verif::point(crate::verif::Event::WaitEnd {
             buf: self.buffer.buffer as usize,
             end,
             seen: self.buffer.current_size(),
         });
+        if decoded < end {
+            Err(std::io::Error::new(
+                std::io::ErrorKind::InvalidData,
+                format!(
+                    "Cannot decompress: {}",
+                    self.buffer.error.get().map_or("", |e| e.as_str())
+                ),
+            ))
+        } else {
+            Ok(())
+        }
     }
 
     #[inline]
@@ -216,7 +250,7 @@ impl Source for SeekableDecoder {
             offset.force_into_usize() + buf.len(),
             self.buffer.total_size(),
         );
-        self.decode_to(end);
+        self.decode_to(end)?;
         let mut slice = &self.decoded_slice()[offset.force_into_usize()..];
         Read::read(&mut slice, buf)
     }
@@ -229,7 +263,7 @@ impl Source for SeekableDecoder {
                 "Out of slice",
             ));
         }
-        self.decode_to(end);
+        self.decode_to(end)?;
         let slice = self.decoded_slice();
         assert!(end <= slice.len());
         buf.copy_from_slice(&self.decoded_slice()[o..end]);
@@ -247,7 +281,7 @@ impl Source for SeekableDecoder {
                 self.size()
             )));
         }
-        self.decode_to(region.end().force_into_usize());
+        self.decode_to(region.end().force_into_usize())?;
         Ok(Cow::Borrowed(
             &self.decoded_slice()
                 [region.begin().force_into_usize()..region.end().force_into_usize()],
